@@ -20,11 +20,21 @@ type solverSpec struct {
 	cmd  func(file string, timeoutS int) []string
 }
 
+// Budgets are given in "seconds on an idle core" and turned into the solvers' deterministic resource limits
+// (z3 rlimit: about 1.3 million units per second on these queries), with a generous wall-clock backstop. The
+// verdict on an obligation therefore does not depend on how busy the machine is: a check that passes passes
+// again under load, it only takes longer.
+const z3UnitsPerSecond = 1300000
+
 var solvers = []solverSpec{
-	{"z3-5.1.0", func(f string, t int) []string { return []string{"z3-new", fmt.Sprintf("-T:%d", t), f} }},
-	{"z3-4.8.12", func(f string, t int) []string { return []string{"/usr/bin/z3", fmt.Sprintf("-T:%d", t), f} }},
+	{"z3-5.1.0", func(f string, t int) []string {
+		return []string{"z3-new", fmt.Sprintf("rlimit=%d", t*z3UnitsPerSecond), fmt.Sprintf("-T:%d", t*8+60), f}
+	}},
+	{"z3-4.8.12", func(f string, t int) []string {
+		return []string{"/usr/bin/z3", fmt.Sprintf("rlimit=%d", t*z3UnitsPerSecond), fmt.Sprintf("-T:%d", t*8+60), f}
+	}},
 	{"cvc5-1.0", func(f string, t int) []string {
-		return []string{"cvc5", "--lang=smt2", fmt.Sprintf("--tlimit=%d", t*1000), f}
+		return []string{"cvc5", "--lang=smt2", fmt.Sprintf("--rlimit=%d", t*100000), fmt.Sprintf("--tlimit=%d", (t*8+60)*1000), f}
 	}},
 }
 
@@ -239,7 +249,7 @@ func runSolverCtx(parent context.Context, s solverSpec, file string, timeoutS in
 	}
 	defer func() { <-solverSlots }()
 	t0 := time.Now()
-	ctx, cancel := context.WithTimeout(parent, time.Duration(timeoutS+5)*time.Second)
+	ctx, cancel := context.WithTimeout(parent, time.Duration(timeoutS*8+90)*time.Second)
 	defer cancel()
 	args := s.cmd(file, timeoutS)
 	cmd := exec.CommandContext(ctx, args[0], args[1:]...)
